@@ -163,7 +163,13 @@ pub fn output_tokens(
 
     let impl_t = &generic_idents.impl_t;
     let type_items = out_trait.associated_types.iter().map(|associated_type| {
-        let attrs = &associated_type.item.attrs;
+        // What decides whether the type is there. Docs and the like are the declaration's
+        // (`#[doc(alias = "..")]`, `#[deprecated]`, `#[must_use]` are rejected on a type in an impl).
+        let attrs = associated_type
+            .item
+            .attrs
+            .iter()
+            .filter_map(crate::analyze_generics::carried_cfg);
         let ident = &associated_type.item.ident;
         let (impl_generics, type_generics, type_where_clause) =
             associated_type.item.generics.split_for_impl();
